@@ -264,14 +264,15 @@ pub fn gen_quake(c: &mut Chooser, ver: Ver, player_counts: &[usize], names_with_
                     },
                 }
             } else {
+                // (short lines: a status reply is a single datagram of at most 1400 bytes)
                 QPlayer {
                     id: i as u8,
-                    time: i as u16,
-                    skin: "base".into(),
+                    time: 0,
+                    skin: String::new(),
                     c1: 1,
                     c2: 2,
                     score: i as i32,
-                    ping: 10 + i as u16,
+                    ping: 1,
                     name: format!("p{i}"),
                     quoted: true,
                     address: None,
